@@ -151,7 +151,7 @@ def _pmap_worker(payload):
         return ('harness', f'{type(e).__name__}: {e}\n{tb}')
 
 
-def pmap(func, items, procs=None, chunksize=1):
+def pmap(func, items, procs=None, chunksize=1, job_timeout=None):
     """Run func over items in forked worker processes (fork keeps the already imported/compiled outrank).
     func must be a module-level function.  Results come back in input order."""
     items = list(items)
@@ -164,14 +164,84 @@ def pmap(func, items, procs=None, chunksize=1):
                 raise HarnessError(val)
             out.append(val)
         return out
+    from concurrent.futures import ProcessPoolExecutor
+    from concurrent.futures.process import BrokenProcessPool
     ctx = mp.get_context('fork')
-    with ctx.Pool(min(procs, len(items))) as pool:
-        res = pool.map(_pmap_worker, [(func, it) for it in items], chunksize=chunksize)
+    from concurrent.futures import TimeoutError as FutTimeout
+    res = [None] * len(items)
+    job_timeout = job_timeout or int(os.environ.get('VERIF_JOB_TIMEOUT', '3000'))
+    ex = ProcessPoolExecutor(max_workers=min(procs, len(items)), mp_context=ctx)
+    hung = False
+    try:
+        futs = [ex.submit(_pmap_worker, (func, it)) for it in items]
+        for i, f in enumerate(futs):
+            try:
+                res[i] = f.result(timeout=job_timeout)
+            except BrokenProcessPool:
+                res[i] = None
+            except FutTimeout:
+                st = Stats()
+                st.count('evaluations')
+                st.violation({'kind': 'worker_hung', 'job': repr(items[i])[:300]}, f'the worker process executing {repr(items[i])[:200]} did not finish within {job_timeout} s (code under test does not terminate)', {'kind': 'hang'})
+                res[i] = ('ok', st)
+                hung = True
+    finally:
+        if hung:
+            for p_ in list(getattr(ex, '_processes', {}).values()):
+                try:
+                    p_.kill()
+                except Exception:  # noqa
+                    pass
+        ex.shutdown(wait=not hung, cancel_futures=True)
     out = []
-    for tag, val in res:
+    for i, r in enumerate(res):
+        if r is None:
+            # a worker process died (signal inside compiled code under test): re-run this job alone in a child that may die, to attribute the crash
+            tag, val = isolated(func, items[i], timeout=1800)
+            if tag in ('crash', 'timeout'):
+                st = Stats()
+                st.count('evaluations')
+                st.violation({'kind': 'worker_died', 'job': repr(items[i])[:300]},
+                             f'the worker process executing {repr(items[i])[:200]} ' + ('did not terminate' if tag == 'timeout' else f'died with status {val}') + ' inside the code under test',
+                             {'kind': 'crash'})
+                r = ('ok', st)
+            else:
+                r = (tag, val)
+        tag, val = r
         if tag != 'ok':
             raise HarnessError(val)
         out.append(val)
+    return out
+
+
+def _isolated_child(conn, func, arg):
+    try:
+        conn.send(_pmap_worker((func, arg)))
+    finally:
+        conn.close()
+
+
+def isolated(func, arg, timeout=600):
+    """Run func(arg) in one forked child and survive its death: returns ('ok', value) | ('harness', text) | ('crash', exitcode) | ('timeout', None).
+    For families that call compiled code which may read out of bounds: a signal in the child must become an observation, not the end of the check."""
+    ctx = mp.get_context('fork')
+    parent, child = ctx.Pipe(duplex=False)
+    p = ctx.Process(target=_isolated_child, args=(child, func, arg))
+    p.start()
+    child.close()
+    out = None
+    if parent.poll(timeout):
+        try:
+            out = parent.recv()
+        except EOFError:
+            out = None
+    p.join(5)
+    if p.is_alive():
+        p.kill()
+        p.join()
+        return ('timeout', None)
+    if out is None:
+        return ('crash', p.exitcode)
     return out
 
 
